@@ -170,3 +170,13 @@ def clean_mode(m):
     """dulwich.index.cleanup_mode: the mode git stores for a work tree object with st_mode m"""
     t = file_type(m)
     return 40960 if t == 10 else (16384 if t == 4 else (57344 if t == 14 else (33261 if (m // 64) % 2 == 1 else 33188)))
+
+
+def cfg_special(c):
+    """bytes that dulwich.config._escape_value replaces by a two-byte escape"""
+    return c == 92 or c == 10 or c == 9 or c == 34
+
+
+def cfg_code(c):
+    """second byte of the escape of a special byte: \\\\ \\n \\t \\\" """
+    return 92 if c == 92 else (110 if c == 10 else (116 if c == 9 else 34))
